@@ -1,5 +1,5 @@
 (** C37 — part 2: the Levene-Haldane recurrences, mean, normalisation and mid-p combinations (exact arithmetic). *)
-From HailV Require Import Common.Prelude CallPacking.Model CallPacking.Arith Stats.Model Stats.Lemmas.
+From HailV Require Import Common.Prelude CallPacking.Model CallPacking.Arith Stats.Model Stats.Lemmas Stats.Pipeline.
 From Coq Require Import QArith Qround Qabs.
 From HailG Require Import C37.Gen.
 Open Scope Z_scope.
@@ -150,67 +150,55 @@ Proof.
 Qed.
 
 (* ---------------------------------------------------------------- finite distributions: normalisation and mid-p *)
+Lemma qsum_cons x l : qsum (x :: l) == x + qsum l.
+Proof. cbn [qsum]. apply Qred_correct. Qed.
+
 Section Dist.
-  (** a finite distribution as (outcome, weight) pairs *)
+  (** a finite distribution as (outcome, mass) pairs; massp / mass / total / ex_prob / ex_cdf2 / exact_midp: Stats.Pipeline *)
   Variable dist : list (Z * Q).
   Hypothesis nonneg : Forall (fun vp => 0 <= snd vp) dist.
 
-  Definition mass (f : Z -> bool) : Q := qsum (map snd (filter (fun vp => f (fst vp)) dist)).
-  Definition total : Q := qsum (map snd dist).
-
-  Lemma mass_nonneg f : 0 <= mass f.
+  Lemma massp_nonneg f : 0 <= massp dist f.
   Proof.
-    unfold mass. induction dist as [|[x w] l IH]; cbn [filter map qsum]; [apply Qle_refl|].
+    unfold massp. induction dist as [|[x w] l IH]; cbn [filter map]; [apply Qle_refl|].
     inversion nonneg as [|? ? Hw Hl]; subst. cbn [fst snd] in *.
-    destruct (f x); cbn [map qsum snd]; [|apply IH; exact Hl].
-    rewrite <- (Qplus_0_r 0). apply Qplus_le_compat; [exact Hw | apply IH; exact Hl].
+    destruct (f (x, w)); cbn [map snd]; [|apply IH; exact Hl].
+    rewrite qsum_cons. rewrite <- (Qplus_0_r 0). apply Qplus_le_compat; [exact Hw | apply IH; exact Hl].
   Qed.
 
-  Lemma mass_disjoint_le f g : (forall x, f x && g x = false) -> mass f + mass g <= total.
+  Lemma massp_disjoint_le f g : (forall vp, f vp && g vp = false) -> massp dist f + massp dist g <= total dist.
   Proof.
-    intros D. unfold mass, total. induction dist as [|[x w] l IH]; cbn [filter map qsum]; [rewrite Qplus_0_r; apply Qle_refl|].
-    inversion nonneg as [|? ? Hw Hl]; subst. cbn [fst snd] in *. specialize (IH Hl). specialize (D x).
-    destruct (f x), (g x); cbn [map qsum snd]; try discriminate.
+    intros D. unfold massp, total. induction dist as [|[x w] l IH]; cbn [filter map]; [cbn; discriminate|].
+    inversion nonneg as [|? ? Hw Hl]; subst. cbn [fst snd] in *. specialize (IH Hl). specialize (D (x, w)).
+    destruct (f (x, w)), (g (x, w)); cbn [map snd]; rewrite ?qsum_cons; try discriminate.
     - rewrite <- Qplus_assoc. apply Qplus_le_compat; [apply Qle_refl | exact IH].
     - rewrite (Qplus_comm (qsum _) (w + _)). rewrite <- Qplus_assoc. apply Qplus_le_compat; [apply Qle_refl|].
       rewrite Qplus_comm. exact IH.
     - rewrite <- (Qplus_0_l (_ + _)). apply Qplus_le_compat; [exact Hw | exact IH].
   Qed.
 
-  Lemma mass_le_total f : mass f <= total.
-  Proof.
-    pose proof (mass_disjoint_le f (fun _ => false) ltac:(intros; apply andb_false_r)) as H.
-    assert (E : mass (fun _ => false) == 0).
-    { unfold mass. clear H nonneg. induction dist as [|[x w] l IH]; cbn; [reflexivity | exact IH]. }
-    rewrite E, Qplus_0_r in H. exact H.
-  Qed.
+  Lemma massp_false : massp dist (fun _ => false) == 0.
+  Proof. unfold massp. clear nonneg. induction dist as [|[x w] l IH]; cbn; [reflexivity | exact IH]. Qed.
 
-  Lemma mass_mono f g : (forall x, f x = true -> g x = true) -> mass f <= mass g.
+  Lemma massp_le_total f : massp dist f <= total dist.
   Proof.
-    intros M. unfold mass. induction dist as [|[x w] l IH]; cbn [filter map qsum]; [apply Qle_refl|].
-    inversion nonneg as [|? ? Hw Hl]; subst. cbn [fst snd] in *. specialize (IH Hl). specialize (M x).
-    destruct (f x) eqn:Ef; cbn [map qsum snd].
-    - rewrite (M eq_refl). cbn [map qsum snd]. apply Qplus_le_compat; [apply Qle_refl | exact IH].
-    - destruct (g x); cbn [map qsum snd]; [|exact IH].
-      rewrite <- (Qplus_0_l (qsum _)). apply Qplus_le_compat; [exact Hw | exact IH].
+    pose proof (massp_disjoint_le f (fun _ => false) ltac:(intros; apply andb_false_r)) as H.
+    rewrite massp_false, Qplus_0_r in H. exact H.
   Qed.
 
   (** the combinations of LeveneHaldane.scala, with the opaque callees instantiated by the exact distribution *)
-  Hypothesis normalised : total == 1.
+  Hypothesis normalised : total dist == 1.
   Variable nA : Z.
   Hypothesis support : Forall (fun vp => (0 <= fst vp <= nA)%Z) dist.
 
-  Definition ex_prob (x : Z) : option Q := Some (mass (fun y => Z.eqb y x)).
-  Definition ex_cdf2 (n0 n1 : Z) : option Q := Some (mass (fun y => Z.ltb n0 y && Z.leb y n1)).   (* P(n0 < X <= n1) *)
-
   Lemma rightMidP_unit x :
-    exists v, rightMidP (survivalFunction ex_cdf2 nA) ex_prob x = Some v /\ 0 <= v <= 1.
+    exists v, rightMidP (survivalFunction (ex_cdf2 dist) nA) (ex_prob dist) x = Some v /\ 0 <= v <= 1.
   Proof.
     unfold rightMidP, survivalFunction, ex_cdf2, ex_prob. msimp. unfold q_add, q_mul. eexists. split; [reflexivity|].
-    set (S := mass (fun y => (x <? y)%Z && (y <=? nA)%Z)). set (P := mass (fun y => (y =? x)%Z)).
-    assert (HS : 0 <= S) by apply mass_nonneg. assert (HP : 0 <= P) by apply mass_nonneg.
+    set (S := mass dist (fun y => (x <? y)%Z && (y <=? nA)%Z)). set (P := mass dist (fun y => (y =? x)%Z)).
+    assert (HS : 0 <= S) by apply massp_nonneg. assert (HP : 0 <= P) by apply massp_nonneg.
     assert (HSP : S + P <= 1).
-    { rewrite <- normalised. apply mass_disjoint_le. intros y.
+    { rewrite <- normalised. apply massp_disjoint_le. intros [y w]. cbn [fst].
       destruct (x <? y)%Z eqn:E1, (y =? x)%Z eqn:E2; cbn; try reflexivity; try apply andb_false_r. lia. }
     split.
     - rewrite <- (Qplus_0_r 0). apply Qplus_le_compat; [exact HS|]. apply Qmult_le_0_compat; [discriminate | exact HP].
@@ -219,22 +207,22 @@ Section Dist.
   Qed.
 
   Lemma leftMidP_unit x :
-    exists v, leftMidP ex_prob (cumulativeProbability1 ex_cdf2) x = Some v /\ 0 <= v <= 1.   (* argument order: probability, cdf *)
+    exists v, leftMidP (ex_prob dist) (cumulativeProbability1 (ex_cdf2 dist)) x = Some v /\ 0 <= v <= 1.   (* argument order: probability, cdf *)
   Proof.
     unfold leftMidP, cumulativeProbability1, ex_cdf2, ex_prob. msimp. unfold q_sub, q_mul. eexists. split; [reflexivity|].
     change (i_neg 1) with (-1)%Z.
-    set (C := mass (fun y => (-1 <? y)%Z && (y <=? x)%Z)). set (P := mass (fun y => (y =? x)%Z)).
-    assert (HC : 0 <= C) by apply mass_nonneg. assert (HP : 0 <= P) by apply mass_nonneg.
-    assert (HC1 : C <= 1) by (rewrite <- normalised; apply mass_le_total).
+    set (C := mass dist (fun y => (-1 <? y)%Z && (y <=? x)%Z)). set (P := mass dist (fun y => (y =? x)%Z)).
+    assert (HC : 0 <= C) by apply massp_nonneg. assert (HP : 0 <= P) by apply massp_nonneg.
+    assert (HC1 : C <= 1) by (rewrite <- normalised; apply massp_le_total).
     assert (HPC : P <= C).
     { (* an outcome equal to x lies in the support, hence is > -1 *)
-      unfold P, C, mass. clear HC HP HC1. induction dist as [|[y w] l IH]; cbn [filter map qsum]; [apply Qle_refl|].
+      unfold P, C, mass, massp. clear HC HP HC1 normalised. induction dist as [|[y w] l IH]; cbn [filter map]; [apply Qle_refl|].
       inversion nonneg as [|? ? Hw Hl]; subst. inversion support as [|? ? Hs Hsl]; subst. cbn [fst snd] in *.
       specialize (IH Hl Hsl).
-      destruct (y =? x)%Z eqn:E; cbn [map qsum snd].
-      - replace ((-1 <? y)%Z && (y <=? x)%Z) with true by lia. cbn [map qsum snd].
+      destruct (y =? x)%Z eqn:E; cbn [map snd].
+      - replace ((-1 <? y)%Z && (y <=? x)%Z) with true by lia. cbn [map snd]. rewrite !qsum_cons.
         apply Qplus_le_compat; [apply Qle_refl | exact IH].
-      - destruct ((-1 <? y)%Z && (y <=? x)%Z); cbn [map qsum snd]; [|exact IH].
+      - destruct ((-1 <? y)%Z && (y <=? x)%Z); cbn [map snd]; [|exact IH]. rewrite qsum_cons.
         rewrite <- (Qplus_0_l (qsum _)). apply Qplus_le_compat; [exact Hw | exact IH]. }
     split.
     - apply Qle_trans with (P - (1 # 2) * P).
@@ -245,23 +233,16 @@ Section Dist.
       apply (Qopp_le_compat 0). apply Qmult_le_0_compat; [discriminate | exact HP].
   Qed.
 
-  (** exactMidP (hand model of the stream code, exact ties instead of the 1e-12 tolerance):
-      half the mass of the outcomes as probable as the observed one plus the mass of the less probable ones *)
-  Definition exact_midp (x : Z) : Q :=
-    let px := mass (fun y => Z.eqb y x) in
-    (1 # 2) * mass (fun y => Qeq_bool (mass (fun z => Z.eqb z y)) px)
-    + mass (fun y => q_ltb (mass (fun z => Z.eqb z y)) px).
-
-  Lemma exact_midp_unit x : 0 <= exact_midp x <= 1.
+  Lemma exact_midp_unit x : 0 <= exact_midp dist x <= 1.
   Proof.
     unfold exact_midp. cbv zeta.
-    set (px := mass (fun y => (y =? x)%Z)).
-    set (E := mass (fun y => Qeq_bool (mass (fun z => (z =? y)%Z)) px)).
-    set (L := mass (fun y => q_ltb (mass (fun z => (z =? y)%Z)) px)).
-    assert (HE : 0 <= E) by apply mass_nonneg. assert (HL : 0 <= L) by apply mass_nonneg.
+    set (px := mass dist (fun y => (y =? x)%Z)).
+    set (E := massp dist (fun vp => Qeq_bool (snd vp) px)).
+    set (L := massp dist (fun vp => q_ltb (snd vp) px)).
+    assert (HE : 0 <= E) by apply massp_nonneg. assert (HL : 0 <= L) by apply massp_nonneg.
     assert (HEL : E + L <= 1).
-    { rewrite <- normalised. apply mass_disjoint_le. intros y. unfold q_ltb.
-      destruct (Qeq_bool (mass (fun z => (z =? y)%Z)) px) eqn:E1; [|reflexivity].
+    { rewrite <- normalised. apply massp_disjoint_le. intros [y w]. cbn [snd]. unfold q_ltb.
+      destruct (Qeq_bool w px) eqn:E1; [|reflexivity].
       apply Qeq_bool_eq in E1. rewrite (proj1 (Qeq_alt _ _) E1). reflexivity. }
     split.
     - rewrite <- (Qplus_0_r 0). apply Qplus_le_compat; [|exact HL]. apply Qmult_le_0_compat; [discriminate | exact HE].
@@ -279,20 +260,20 @@ Lemma normalised_sums_to_one (R L : list Q) :
 Proof.
   intros HR HL pN.
   assert (Hs : forall l, Forall (fun w => 0 <= w) l -> 0 <= qsum l).
-  { induction l as [|w l IH]; intros H; cbn [qsum]; [apply Qle_refl|]. inversion H; subst.
+  { induction l as [|w l IH]; intros H; [apply Qle_refl|]. rewrite qsum_cons. inversion H; subst.
     rewrite <- (Qplus_0_r 0). apply Qplus_le_compat; [assumption | apply IH; assumption]. }
   assert (Hd : forall (l : list Q) c, qsum (map (fun w => w / c) l) == qsum l / c).
-  { induction l as [|w l IH]; intros c; cbn [map qsum]; [unfold Qdiv; ring|]. rewrite IH. unfold Qdiv. ring. }
+  { induction l as [|w l IH]; intros c; cbn [map]; [cbn; unfold Qdiv; ring|]. rewrite !qsum_cons, IH. unfold Qdiv. ring. }
   assert (Ha : forall l1 l2, qsum (l1 ++ l2) == qsum l1 + qsum l2).
-  { induction l1 as [|w l IH]; intros l2; cbn [app qsum]; [ring|]. rewrite IH. ring. }
-  assert (Ep : pN == 1 + qsum R + qsum L) by (unfold pN; cbn [qsum]; ring).
+  { induction l1 as [|w l IH]; intros l2; cbn [app]; [cbn; ring|]. rewrite !qsum_cons, IH. ring. }
+  assert (Ep : pN == 1 + qsum R + qsum L) by (unfold pN; rewrite !qsum_cons; ring).
   assert (Hp : 0 < pN).
   { rewrite Ep. apply Qlt_le_trans with 1; [reflexivity|].
     rewrite <- (Qplus_0_r 1) at 1. rewrite <- Qplus_assoc. apply Qplus_le_compat; [apply Qle_refl|].
     rewrite <- (Qplus_0_r 0). apply Qplus_le_compat; [apply Hs; exact HR | apply Hs; exact HL]. }
   split; [exact Hp|].
   assert (Nz : ~ pN == 0) by (intros E; rewrite E in Hp; apply (Qlt_irrefl 0); exact Hp).
-  rewrite Hd, Ha. cbn [qsum].
+  rewrite Hd, Ha. rewrite qsum_cons.
   setoid_replace (1 + qsum R + qsum L) with pN by (symmetry; exact Ep).
   field. exact Nz.
 Qed.
